@@ -108,6 +108,17 @@ def _jdefault(o):
     return repr(o)
 
 
+def _finite(o):
+    """strict-JSON form: non-finite floats become strings"""
+    if isinstance(o, float) and not math.isfinite(o):
+        return repr(o)
+    if isinstance(o, dict):
+        return {k: _finite(v) for k, v in o.items()}
+    if isinstance(o, list):
+        return [_finite(v) for v in o]
+    return o
+
+
 def chash(case):
     return hashlib.blake2b(canon(case).encode(), digest_size=8).hexdigest()
 
@@ -565,7 +576,8 @@ def parent_main(prop, tier):
         wall_s=round(wall, 2), violations=len(violations))
     (out_dir() / "evidence").mkdir(parents=True, exist_ok=True)
     with open(out_dir() / "evidence" / f"{prop}.json", "w") as f:
-        json.dump(ev, f, indent=1, default=_jdefault, allow_nan=False)
+        json.dump(_finite(json.loads(json.dumps(ev, default=_jdefault))), f, indent=1,
+                  allow_nan=False)
 
     # tidy scratch
     import shutil
